@@ -337,9 +337,19 @@ def phase_mktime(exe, rep, files, tier):
     req, plan = [], []
     for k, p in enumerate(files):
         z = read_tzif(p)
-        offs = sorted(set(o for o, _, _ in z["types"]))
-        trans = [t for t, _ in z["trans"] if 0 <= t < 2 ** 33]
         last = z["trans"][-1][0] if z["trans"] else -2 ** 62
+        # candidate offsets = offsets of the file's types + offsets the references themselves show around the footer-rule
+        # transitions (a slim file need not carry a type for an offset that only its footer uses)
+        seen = set(o for o, _, _ in z["types"])
+        zi = zoneinfo.ZoneInfo.from_file(open(p, "rb"), key=os.path.basename(p))
+        glibc_select(p)
+        for t in rule_trans[p]:
+            if t > last:
+                for u in (t - 1, t):
+                    seen.add(zi_lookup(zi, u)[0])
+                    seen.add(glibc_lookup(u)[0])
+        offs = sorted(seen)
+        trans = [t for t, _ in z["trans"] if 0 <= t < 2 ** 33]
         if tier != "thorough":
             trans = trans[::3] if len(trans) > 60 else trans
         trans = trans + [t for t in rule_trans[p] if t > last]
@@ -347,7 +357,7 @@ def phase_mktime(exe, rep, files, tier):
         plan.append((p, None, offs, z))
         for t in trans:
             # local readings: transition instant shifted by each offset of the zone, +- the deltas, +-1 s
-            for o in offs[:6]:
+            for o in offs:
                 for d in deltas:
                     for e in (-1, 0, 1):
                         c = t + o + d + e
